@@ -28,6 +28,7 @@ Definition ev_errk (e : ev) := match e with EOp _ _ => XFault | EHook _ => XHook
 Record case := mk_case {
   c_free : list ev;                (* events of the fault-free run of the same operation *)
   c_dfault : option nat; c_hfault : option nat;
+  c_natural : bool;                (* the operation fails by itself (no injected fault): spec only *)
   (* observed in this run *)
   o_evs : list ev; o_err : errk;
   o_wrapped : bool;                (* informational: enclosing callbacks re-add the nested error *)
@@ -36,6 +37,7 @@ Record case := mk_case {
 }.
 
 Definition model_agrees (c : case) : bool :=
+  if c_natural c then true else
   match split_pipes (c_free c) None with
   | None => false    (* the operation is not a sequence of BEGIN .. COMMIT pipelines *)
   | Some pipes =>
@@ -51,7 +53,9 @@ Definition model_agrees (c : case) : bool :=
    connection stays checked out *)
 Definition spec_holds (c : case) : bool :=
   Z.eqb (o_in_use c) 0 && Z.eqb (o_open_tx c) 0
-  && match filter ev_failed (o_evs c) with
+  && if c_natural c
+     then nth 0 (o_match c) false && negb (errk_eqb (o_err c) XNil)   (* failed by itself: unchanged, reported *)
+     else match filter ev_failed (o_evs c) with
      | [] => errk_eqb (o_err c) XNil && last (o_match c) false
      | fl => nth 0 (o_match c) false && errk_eqb (o_err c) (ev_errk (last fl EMark))
      end.
